@@ -1,6 +1,95 @@
-/-! Driver entry for property C14 (stub: not implemented yet). -/
-namespace HeartwoodModel.Driver.C14
+import HeartwoodModel.Model.Frame
+import HeartwoodModel.Model.Wire
+import HeartwoodModel.Driver.Util
+/-! Driver entry for C14.
 
-def run (_args : List String) : String := "unimplemented"
+Case: `<B> <stream hex> <cuts> <onion set> <flag>` — a `Deserializer<B, Frame<Message>>` is fed the stream
+split at the (non-decreasing) byte positions `cuts`, draining after every chunk. `onion set` lists the raw
+35-byte Tor addresses (hex, comma separated) accepted by the real `OnionAddrV3::from_raw_bytes` among the
+candidates of the stream. `flag` (`v` = stream was produced by the real encoder) is for the harness oracle.
+
+Output: `<groups> end=<more|err|full|panic:site> left=<n> a=<ok|over>` where `groups` are the frames obtained
+after each chunk (`|` between chunks, `;` between frames, `-` for none), `left` the unparsed bytes and `a`
+whether every `deserialize_next` stayed within `K + 2·received` requested bytes. -/
+namespace HeartwoodModel.Driver.C14
+open HeartwoodModel.Codec HeartwoodModel.Frame HeartwoodModel.Wire HeartwoodModel.Driver.Util
+
+def toBytes (l : List Nat) : Bytes := l.map UInt8.ofNat
+def ofBytes (b : Bytes) : List Nat := b.map UInt8.toNat
+
+/-- djb2 over the bytes, 32 bit. -/
+def hash (b : Bytes) : Nat := b.foldl (fun h x => (h * 33 + x.toNat) % 4294967296) 5381
+
+/-- Short byte strings in hex, long ones as `#<len>.<hash>`. -/
+def short (b : Bytes) : String :=
+  if b.length ≤ 24 then toHex (ofBytes b) else s!"#{b.length}.{hash b}"
+
+def showFrame (f : Frame Msg) : String :=
+  match f.data with
+  | .control (.open s) => s!"c{f.stream}:o{s}"
+  | .control (.close s) => s!"c{f.stream}:x{s}"
+  | .control (.eof s) => s!"c{f.stream}:e{s}"
+  | .git d => s!"t{f.stream}:{short d}"
+  | .gossip m =>
+    match m.serialize? with
+    | some b => s!"g{f.stream}:{short b}"
+    | none => s!"g{f.stream}:!"
+
+def showGroup (g : List (Frame Msg)) : String :=
+  if g.isEmpty then "-" else joinWith ";" (g.map showFrame)
+
+/-- Split `b` at the positions `cuts` (relative to the start of the stream; `pos` = bytes already cut). -/
+def chunksOf (b : Bytes) (pos : Nat) : List Nat → Option (List Bytes)
+  | [] => some [b]
+  | c :: cs =>
+    if c < pos || c - pos > b.length then none
+    else (chunksOf (b.drop (c - pos)) c cs).map (b.take (c - pos) :: ·)
+
+/-- Largest modelled buffer request over all `deserialize_next` calls, compared with the bound: returns
+`false` if some call asked for more than `K + 2·received`. Mirrors `Deser.feed`. -/
+def allocDrain (d : Dec (Frame Msg)) (received : Nat) : Nat → Deser → Bool × Deser × Bool
+  | 0, s => (true, s, false)
+  | fuel + 1, s =>
+    let within := decide (Frame.alloc msgAlloc s.buf ≤ allocMax + 32 + 2 * received)
+    match s.next d with
+    | .item _ s' =>
+      let (ok, s'', cont) := allocDrain d received fuel s'
+      (within && ok, s'', cont)
+    | .none => (within, s, true)
+    | _ => (within, s, false)
+
+def allocFeed (d : Dec (Frame Msg)) (B : Nat) : Deser → Nat → List Bytes → Bool
+  | _, _, [] => true
+  | s, received, c :: cs =>
+    match s.input B c with
+    | none => true
+    | some s1 =>
+      let received := received + c.length
+      let (ok, s2, cont) := allocDrain d received (drainFuel s1) s1
+      if cont then ok && allocFeed d B s2 received cs else ok
+
+def parseSet (s : String) : Option (List Bytes) :=
+  if s == "-" then some [] else ((splitOn s ',').mapM hexBytes?).map (·.map toBytes)
+
+def run (args : List String) : String :=
+  match args with
+  | [bS, streamS, cutsS, onionS, _flag] =>
+    match nat? bS, hexBytes? streamS, nats? cutsS, parseSet onionS with
+    | some B, some stream, some cuts, some onions =>
+      let env : Env := ⟨fun raw => onions.contains raw⟩
+      let d := Frame.decode (decodeMsg env)
+      match chunksOf (toBytes stream) 0 cuts with
+      | none => "bad-op"
+      | some chunks =>
+        match Deser.feed d B ⟨[]⟩ chunks with
+        | none => "fuel"
+        | some (groups, s, e) =>
+          let endS := match e with
+            | .more => "more" | .err => "err" | .full => "full" | .panic site => s!"panic:{site}"
+          let a := if allocFeed d B ⟨[]⟩ 0 chunks then "ok" else "over"
+          let gs := if groups.isEmpty then "-" else joinWith "|" (groups.map showGroup)
+          s!"{gs} end={endS} left={s.buf.length} a={a}"
+    | _, _, _, _ => "bad-op"
+  | _ => "bad-op"
 
 end HeartwoodModel.Driver.C14
